@@ -9,7 +9,7 @@ set_option linter.unusedVariables false
 set_option linter.unusedSimpArgs false
 set_option maxHeartbeats 1000000
 open Lex PM Ast TP TP2 TS TQ
-namespace TD
+namespace TDM
 variable {d : Gen.D} {ch : Expr → Bool}
 
 theorem stops_bd {rest : List Tok} (h : stopsStmt d rest = true) : Bd3 d 7 rest = true := by
@@ -142,4 +142,4 @@ theorem stmt_ok (hch : ChOK d ch) (tb : Bool) (s : Stmt) (hs : FragStmt d s = tr
       simp only [searchStrUp, kS, if_true, hp]
   | _ => simp [FragStmt] at hs
 
-end TD
+end TDM
